@@ -341,6 +341,10 @@ def drive(task):
             if ev["op"] in ("operands_kept", "session_replay"):
                 yield ev
         return
+    if task["kind"] == "dfa_gen_replay":
+        from .. import dfa_session_replay
+        yield from dfa_session_replay.drive_file(task["path"], task["lo"], task["hi"])
+        return
     table = ops_table()
     cases = case_list(task["seed"], task["n"])
     random.Random(task["order"]).shuffle(cases)          # another history in every run
@@ -354,6 +358,10 @@ def redrive(src):
         for ev in session_replay.replay_line(src["line"]):
             if ev["op"] in ("operands_kept", "session_replay"):
                 yield ev
+        return
+    if src["kind"] == "dfa_gen_line":
+        from .. import dfa_session_replay
+        yield from dfa_session_replay.replay_line(src["line"])
         return
     if src["kind"] == "cases_pair":
         table = ops_table()
@@ -391,9 +399,15 @@ def derive(done, pid):
     return out, n
 
 
-MODELS = {"quick": [("Session", "Session_q.cfg", "heap-level model: OperandsUnchanged over all histories of <= 3 constructions")],
+_DS = ("container-level heap model of the DFA API (complement, make_total, make_total_in_place, union, remove_unreachable, "
+       "no_extend): OperandsUnchanged, well-formed objects, result languages over all histories of <= 3 calls on every "
+       "partial DFA over 2 states")
+MODELS = {"quick": [("Session", "Session_q.cfg", "heap-level model: OperandsUnchanged over all histories of <= 3 constructions"),
+                    ("DfaSession", "DfaSession_fixed.cfg", _DS, {"allow_untaken": True})],
           "thorough": [("Session", "Session_t.cfg", "all histories of <= 4 constructions"),
-                       ("Session", "Session_t0.cfg", "epsilon = ''")]}
+                       ("Session", "Session_t0.cfg", "epsilon = ''"),
+                       ("DfaSession", "DfaSession_fixed.cfg", _DS, {"allow_untaken": True}),
+                       ("DfaSession", "DfaSession_t.cfg", "the same over {a,b}", {"allow_untaken": True})]}
 RULE = ("59 pure operations of the library (acceptance tests, enumerators, simulators, printers, minimisers, products, "
         "conversions, normal forms without _in_place, generate_language) on seeded random arguments; every case is run "
         "in 3 (12) processes with different PYTHONHASHSEED, in a different order (history) and with logging on/off, "
@@ -414,9 +428,14 @@ MATCHERS = {}
 def check(tier, seed):
     from . import c18
     info = {}
-    ts = tasks(tier, seed) + c18.gen_tasks(PID, tier, info)
+    from .. import dfa_session_replay
+    ts = tasks(tier, seed) + c18.gen_tasks(PID, tier, info) + dfa_session_replay.gen_tasks(PID, tier, info)
+
+    def extra(res, done):
+        res.notes["spec_behaviours_replayed_into_impl"] = info
+
     return base.standard_check(PID, tier, seed, ts, MODELS[tier], RULE, nontrivial, matchers=MATCHERS,
-                               derive=lambda done: derive(done, PID),
+                               derive=lambda done: derive(done, PID), extra=extra,
                                assumptions=["languages of grammars / PDAs are compared on words <= 3",
                                             "PDA operations under closure limit 60, TM operations under budgets 20-50"])
 
